@@ -208,6 +208,29 @@ def run(ctx):
                 ctx.violation(sig, "recorded decode observation rejected by CodecTrace!CheckDecode (%s)" % sig["kind"], det)
             else:
                 drift += 1
+        if prop == "C03":
+            # decoders on several goroutines at once, fed with tags nobody has used before (one process per round)
+            rounds = 4 if quick else 40
+            decodes = 0
+            for k in range(rounds):
+                p = ctx.vh(["codec", "concurrent", "300"], check=False, env={"VERIF_SEED": str(ctx.seed + k), "GOMAXPROCS": ["16", "4", "2", "8"][k % 4]}, timeout=600)
+                err = p.stderr.decode(errors="replace")
+                if p.returncode != 0:
+                    m = re.search(r"^(fatal error: .*|panic: .*)$", err, re.M)
+                    if not m:
+                        raise common.MachineryError("vh codec concurrent failed:\n" + err[-2000:])
+                    ctx.violation({"kind": "crash", "site": "concurrent decoders: " + re.sub(r"\d+", "N", m.group(1))[:60]},
+                                  "decoding on several goroutines at once crashed the process: " + m.group(1), {"stderr": err[:3000]})
+                    continue
+                r = json.loads(p.stdout.decode())
+                decodes += r["decodes"]
+                if r["mismatches"]:
+                    ctx.violation({"kind": "concurrent-decode-differs"}, "%d of %d documents decoded concurrently differ from their sequential decode" % (
+                        r["mismatches"], r["decodes"]), r)
+            ctx.traces += decodes
+            ctx.extra["concurrent_decodes"] = decodes
+            ctx.assumptions.append("decoders running on 8 goroutines at once (each with its own reader, inputs with tags that no decoder has seen before) "
+                                   "must not crash the process and must give the sequential result; this is an outcome-class observation, outside the decoder machine")
         rule = ("A: every terminal state of the decoder machine (all inputs built from <= N chunks, all option sets) replayed on the "
                 "real decoder; B: %d seeded observations (level walks, mixed terminators, BOM, byte mutations, random bytes, "
                 "adversarial files, 1 MB inputs) x 4 option sets judged by CodecTrace!CheckDecode" % total)
